@@ -86,6 +86,14 @@ def check_cuts(rep, tier, rng, drv, run, tmp):
         vals = [b"abc" + _st.pack("<I", 0) + b"PAR1", b"q" * 9 + _st.pack("<I", 5) + b"PAR1",
                 _st.pack("<I", 0xFFFFFFF0) + b"PAR1", b"zz" + _st.pack("<I", 1000000) + b"PAR1",
                 _st.pack("<I", 0x7FFFFFFF) + b"PAR1", b"xPAR1", small, b"tail"]
+        # data that makes a prefix look like a complete file at the cut: <minimal Thrift struct> <its length> PAR1
+        # (STOP byte alone; version only; version + num_rows; an unterminated field) and length words whose
+        # 32-bit arithmetic can wrap (0xFFFFFFF0 .. 0xFFFFFFFF)
+        for st_ in (b"\x00", b"\x15\x02\x00", b"\x15\x02\x26\x00\x00", b"\x15\x00", b"\x19\x0c\x00",
+                    b"\x15\x02\x19\x0c\x16\x00\x19\x0c\x00"):
+            vals.append(b"~" + st_ + _st.pack("<I", len(st_)) + b"PAR1")
+        for w in range(0xFFFFFFF1, 0x100000000):
+            vals.append(_st.pack("<I", w) + b"PAR1")
         rng.shuffle(vals)
         for codec in ([0] if tier == "quick" else [0, 0, 1]):
             bp = tmp / f"blob{len(files)}.parquet"
